@@ -142,4 +142,32 @@ theorem tie_copyRegular : copyRegularFilesText =
 theorem tie_copyRegular_model (m : ArvVerif.C17.Mount) :
     ArvVerif.C17.copyRegular m = (m.kind = "text" || m.kind = "json" || (m.kind = "collection" && m.writable)) := rfl
 
+/-! ### code of other packages on the copier's path (also tied by C10 / C08) -/
+
+/-- `manifest.Extract` (`manifestTextForPath`): single-file case first, then every stream equal to
+`srcpath` or below `srcpath + "/"` — the component boundary that `extract` models as `isPrefixOf`
+on component lists — relocated to `relocate + k[len(srcpath):]` -/
+theorem tie_extract_conds : extractConds =
+    ["if strings.HasSuffix(relocate, \"/\")", "if ok", "if okfile", "if relocateFilename == \"\"",
+     "if strings.HasSuffix(relocate, \"/\")", "if strings.HasPrefix(k, prefix) || k == srcpath"] := rfl
+
+theorem tie_extract_assigns : extractAssigns =
+    ["relocate = fixStreamName(relocate) + suffix",
+     "streamname, filename := splitPath(srcpath)",
+     "relocateStream, relocateFilename := splitPath(relocate)",
+     "relocateFilename = filename",
+     "prefix := srcpath + \"/\"",
+     "relocate = relocate[0 : len(relocate)-1]",
+     "manifest := \"\"",
+     "manifest += m[k].normalizedText(relocate + k[len(srcpath):])"] := rfl
+
+/-- names travel through the manifest text unchanged (the model keeps names abstract): both
+escapers escape the backslash -/
+theorem tie_escapeName : escapeNameConds = ["if c <= 32 || c == '\\\\'"] := rfl
+
+theorem tie_manifestEscape : manifestEscapeText =
+    "{ return manifestEscapedChar.ReplaceAllStringFunc(s, manifestEscapeFunc) }" := rfl
+
+theorem tie_manifestEscapedChar : manifestEscapedChar = "[\\000-\\040:\\s\\\\]" := rfl
+
 end ArvVerif.Tie.C17
